@@ -120,6 +120,15 @@ tx transfer(quantity: Int) {
     input source { from: Sender, min_amount: Ada(min_utxo(o)) + AnyAsset(0x""" + "ab" * 28 + """, "t", fees), }
     output o { to: Sender, amount: source - fees, }
 }"""
+# metadata: the same text under two labels, another text under the first label -- what an instance wrote into the
+# auxiliary data of one transaction has no business in the next one
+for _n, (_lab, _txt) in {"meta_674_order": (674, "order 17"), "meta_1_order": (1, "order 17"), "meta_674_other": (674, "other text")}.items():
+    SRC[_n] = """party Sender;
+tx transfer(quantity: Int) {
+    input source { from: Sender, min_amount: fees + Ada(quantity), }
+    output { to: Sender, amount: source - fees, }
+    metadata { %d: "%s", }
+}""" % (_lab, _txt)
 KIND = {"transfer": "transfer", "transfer_nofee_min": "transfer", "transfer_min": "transfer_min"}
 
 
@@ -307,6 +316,26 @@ def sweep_jobs(pp, quick, rng):
                 cj = dict(c, construct="reconfigured") if len(jobs) % 4 == 3 else c
                 jobs.append({"id": len(jobs), "cmd": "resolve", "cfg": cj, "steps": [step(tn, q, split, rounds)], "compare_fresh": False})
                 heads.append(case_event([tn], q, split, c, rounds))
+        # the fee itself at a CBOR width boundary: the constant is chosen so that the first estimate (built on the fee-0
+        # payload) sits just below 2^16 (2^8 for a zero coefficient is out of reach) and a later one just above -- the
+        # payload keeps growing for one round more than usual; caps of 3 and 5 rounds
+        if a > 0 and extra in (0, None):
+            margin = 200_000 if extra is None else 0
+            for tn in tnames:
+                f0 = calibrate(tn, q, c)
+                ln = (f0 - b - margin) // a            # payload length of a settled resolution
+                for wb in (65536,):
+                    if wb - margin - a * ln <= 0:
+                        continue
+                    for d in range(-8, 9):
+                        b2 = wb - margin - a * ln + d * max(1, a // 2)
+                        if b2 < 0:
+                            continue
+                        c2 = cfg(a, b2, extra)
+                        for rounds in (3, 5):
+                            amt = [50_000_000]
+                            jobs.append({"id": len(jobs), "cmd": "resolve", "cfg": c2, "steps": [step(tn, q, amt, rounds)], "compare_fresh": False})
+                            heads.append(case_event([tn], q, amt, c2, rounds))
         # every template at the edge quantities (nothing sent: optional outputs come out empty and are dropped; one
         # lovelace; a negative amount), against a comfortable and a tight store
         for tn in sorted(SRC):
@@ -385,9 +414,9 @@ def check_c20(tier, seed):
     quick = tier == "quick"
     design(rep, quick)
     tpls = ["out0", "out1", "out3_min2", "out5", "transfer", "transfer_min", "fail", "big_datum_tight", "optional_drop_min",
-            "optional_only_min", "mint_v1", "mint_v2", "mint_v3"]
+            "optional_only_min", "mint_v1", "mint_v2", "mint_v3", "meta_674_order", "meta_1_order", "meta_674_other"]
     targets = ["transfer_min", "out3_min2", "transfer", "out1", "fail", "optional_drop_min", "optional_only_min",
-               "mint_v1", "mint_v2", "mint_v3"]
+               "mint_v1", "mint_v2", "mint_v3", "meta_674_order", "meta_1_order"]
     qq = lambda xs: ", ".join('"%s"' % x for x in xs)  # noqa
     g = core.tlc_mc("MC_History", HIST_CFG.format(tpls=qq(tpls), targets=qq(targets), n=2 if quick else 3),
                     "c20_hist", workers=4, timeout=900)
